@@ -1,7 +1,9 @@
-(* Documentation of two repaired defects (DESIGN.md section 7, D2 and D3): the
-   pre-fix code as a model, and a computed witness on which the property fails.
-   The current code is modelled in Model/Mapper.v; nothing else depends on this file
-   except the two `_refuted` statements quoted in Props/C02.v. *)
+(* The pre-fix, label-KEYED variants of two pieces of the code (DESIGN.md
+   section 7, D2 and D3), written with the same keyed pandas primitives as the
+   current model (Model/Mapper.v, Section Keyed), and computed witnesses on
+   which they break the property.  They show that relabelling invariance is
+   not a consequence of the framework: it fails for these definitions and holds
+   for the current ones.  Quoted in Props/C02.v. *)
 From Coq Require Import ZArith List Bool Arith.
 From PF Require Import Lib.ListX Model.Ragged Model.Mapper Model.MapperSpec.
 Import ListNotations.
@@ -9,37 +11,44 @@ Local Open Scope nat_scope.
 
 (* D2 (fixed by f4ba596): MultiCategoricalTensorMapper.forward kept the caller's
    labels -- `original_index = ser.index`, and the per-row counts were
-   `ser.index.value_counts().reindex(original_index, fill_value=0)`, i.e. keyed by label *)
-Definition multicategorical_forward_legacy (cats : list pval) (sep : option str) (s : @series nat mc_cell)
-  : option (mnt Z) :=
+   `ser.index.value_counts().reindex(original_index, fill_value=0)`, keyed by the CALLER's labels *)
+Definition multicategorical_forward_legacy {L} (leqb : L -> L -> bool) (cats : list pval) (sep : option str)
+  (s : @series L mc_cell) : option (mnt Z) :=
   let original_index := map fst s in
   sets <- ser_apply_opt (fun row => split_by_sep row sep) s ;;
   let exploded := explode sets in
   let merged := merge_left exploded (multicat_index cats) in
   let kept := filter (fun r => match r with (_, Some _, Some _) => true | _ => false end) merged in
   let values := flat_map (fun r => match snd r with Some k => [k] | None => [] end) kept in
-  let counts := label_counts (map (fun r => fst (fst r)) kept) original_index in
+  let counts := label_counts leqb (map (fun r => fst (fst r)) kept) original_index in
   let offset := cumsum (0 :: counts) in
   mk_mnt Z (length original_index) 1 values offset.
 
-(* the frame df.iloc[[1, 1]]: two rows carrying the same label *)
+(* the frame df.iloc[[1, 1]]: two rows carrying the same label; and the same cells under labels 0, 1 *)
 Definition dup_series : @series nat mc_cell := [(1, MCList [VStr [97%Z]]); (1, MCList [VStr [97%Z]])].
+Definition range_series : @series nat mc_cell := [(0, MCList [VStr [97%Z]]); (1, MCList [VStr [97%Z]])].
 
 Lemma multicat_dup_labels_refuted :
   (* the current pipeline encodes the two cells *)
-  multicategorical_encode [VStr [97%Z]] None dup_series = Some [[SInt 0]; [SInt 0]] /\
+  multicategorical_encode true [VStr [97%Z]] None dup_series = Some [[SInt 0]; [SInt 0]] /\
   (* the label-keyed one counted both rows under label 1 twice: offsets [0;2;4] for 2 values -> the container's
      constructor raises *)
-  multicategorical_forward_legacy [VStr [97%Z]] None dup_series = None.
+  multicategorical_forward_legacy Nat.eqb [VStr [97%Z]] None dup_series = None.
 Proof. split; vm_compute; reflexivity. Qed.
 
+(* same cells, different labels, different result: the legacy pipeline is NOT relabelling invariant *)
+Lemma multicat_legacy_not_relabel_invariant :
+  ser_values dup_series = ser_values range_series /\
+  multicategorical_forward_legacy Nat.eqb [VStr [97%Z]] None dup_series
+    <> multicategorical_forward_legacy Nat.eqb [VStr [97%Z]] None range_series.
+Proof. split; [reflexivity | vm_compute; discriminate]. Qed.
+
 (* D3 (fixed by 154b7d1): StatType.EMB_DIM was len(ser[0]) -- a LABEL lookup *)
-Definition ser_loc {C} (s : @series nat C) (label : nat) : option C :=
-  option_map snd (find (fun p => fst p =? label) s).
-Definition emb_dim_legacy (s : @series nat (list num)) : option nat := option_map (@length num) (ser_loc s 0).
-Definition emb_dim_positional (s : @series nat (list num)) : option nat := option_map (@length num) (hd_error (map snd s)).
+Definition emb_dim_legacy {L} (leqb : L -> L -> bool) (zero : L) (s : @series L (list num)) : option nat :=
+  option_map (@length num) (ser_loc leqb s zero).
+Definition emb_dim_positional {L} (s : @series L (list num)) : option nat := option_map (@length num) (hd_error (map snd s)).
 
 Lemma emb_dim_label_refuted :
   let s := [(100, [NFin 1; NFin 2]); (101, [NFin 3; NFin 4])] in        (* an offset index: no label 0 *)
-  emb_dim_positional s = Some 2 /\ emb_dim_legacy s = None.           (* KeyError *)
+  emb_dim_positional s = Some 2 /\ emb_dim_legacy Nat.eqb 0 s = None.  (* KeyError *)
 Proof. split; reflexivity. Qed.
